@@ -52,7 +52,7 @@ LEVEL = {'text': 'Machine-checked refinement of a state machine (caches, object 
                  '(offset-exact lookups name a unit/entry start). What the bytes decode to is abstract (parse '
                  'functions of the file description); decoding itself is the subject of C04/C05/C06.'}
 RULE = ('cases: (file, history, last operation); bfs = every abstract state reachable within the depth bound x every '
-        'operation of the alphabet on 3 synthesized files (seven alphabets: DWARF, ELF, listing the children of an inner entry and then of an ancestor two levels up '
+        'operation of the alphabet on 3 synthesized files (eight alphabets: DWARF, ELF, the unit map with lookups that raise between successful ones, listing the children of an inner entry and then of an ancestor two levels up '
         '(three levels deeper), walking the children of an offset-fetched entry then asking for the parent of '
         'the entry after its subtree (two levels deeper), call-frame decoding in every order '
         '(two levels deeper), interleaved iterators over the children of one entry (five levels deeper), and a type-unit generator '
@@ -71,7 +71,7 @@ NSLOTS = 2
 LOCAL_REF_FORMS = ('DW_FORM_ref1', 'DW_FORM_ref2', 'DW_FORM_ref4', 'DW_FORM_ref8', 'DW_FORM_ref', 'DW_FORM_ref_udata')
 OTHER_REF_FORMS = ('DW_FORM_ref_sig8', 'DW_FORM_ref_sup4', 'DW_FORM_ref_sup8', 'DW_FORM_GNU_ref_alt')
 DWARF_OPS = {'CUAt', 'CUContaining', 'TopDIE', 'DIEAt', 'DIEGlobal', 'Parent', 'FollowRef', 'LineProg', 'LineEntries',
-             'CFI', 'CFIDecoded', 'TUBySig', 'NewIterTUs', 'RefetchDwarf', 'NewIterCUs', 'NewIterDIEs', 'NewIterChildren', 'NewIterSiblings'}
+             'CFI', 'CFIDecoded', 'TUBySig', 'NewIterTUs', 'RefetchDwarf', 'CUAtFailing', 'NewIterCUs', 'NewIterDIEs', 'NewIterChildren', 'NewIterSiblings'}
 
 
 # ------------------------------------------------------------------ serialisation of observed values
@@ -251,6 +251,8 @@ class Opened:
         if k == 'Disturb':
             self.stream(op[1]).seek(op[2])
             return 'done'
+        if k == 'CUAtFailing':
+            return self.a_unit(dw.get_CU_at(op[1]))
         if k == 'CUAt':
             return self.a_unit(dw.get_CU_at(op[1]))
         if k == 'CUContaining':
@@ -669,6 +671,31 @@ def tabulate_unit_tree(image, u, ids, fresh_each, stub=False, limit=10 ** 9):
     return conv(root), abbrev_end, count
 
 
+def tabulate_failing_lookups(image, units, info_size):
+    """[offset, exception class, .debug_info cursor afterwards (-1: stream untouched)] for get_CU_at at offsets where
+    no unit starts and where a FRESH object raises (offsets at which the call happens to parse something are left out)"""
+    starts = set(u[0] for u in units)
+    cands = []
+    for u in units:
+        cands += [u[0] + 1, u[0] + 4, u[0] + 11]
+    cands += [info_size - 1, info_size - 3, info_size, info_size + 5]
+    out, seen = [], set()
+    for off in cands:
+        if off in starts or off in seen or off < 0:
+            continue
+        seen.add(off)
+        dw = _fresh_dw(image)
+        st = dw.debug_info_sec.stream
+        sentinel = 7 if info_size > 7 else 0
+        st.seek(sentinel)
+        try:
+            dw.get_CU_at(off)
+        except Exception as ex:
+            cur = st.tell()
+            out.append([off, type(ex).__name__, -1 if cur == sentinel else cur])
+    return out
+
+
 def tabulate_cfi(image, ids, eh):
     """[kind, index of the entry's CIE in the list, id of its decoded table] per entry; every table is decoded
     on a freshly fetched list on which nothing else was decoded before"""
@@ -843,6 +870,7 @@ def tabulate(meta, fresh_each=True, die_budget=4000):
             cfi_ents, ehcfi_ents = [], []
             tus, types_size = [], 0
             meta['units'] = []
+    meta['cu_fail'] = tabulate_failing_lookups(image, units, info_size) if units else []
     meta['has_cfi'], meta['has_ehcfi'] = bool(cfi), bool(ehcfi)
     meta['cfi_ents'] = [cfi_ents, ehcfi_ents]
     meta['tus'] = tus
@@ -963,6 +991,18 @@ def alphabet(meta, machine):
         sigs = meta['tu_sigs']
         ops += [['NewIterTUs', 0], ['Next', 0], ['TUBySig', sigs[0]], ['TUBySig', sigs[-1]], ['TUBySig', 0x1234],
                 ['Disturb', 12, 3], ['CUAt', meta['units'][-1]['off']]]
+    elif machine == 'DU':
+        # the unit map: lookups that raise (no unit starts at the offset) between successful lookups by offset, by
+        # contained address and by iteration, from every warm-up state (nothing, a lower, a higher unit cached)
+        us = [u['off'] for u in meta['units']]
+        ops += [['CUAt', u] for u in us] + [['CUContaining', us[0] + 2], ['CUContaining', us[-1] + 2]]
+        ops += [['NewIterCUs', 0], ['Next', 0]]
+        fails = meta['cu_fail']
+        pick = [f for f in fails if f[0] < us[-1]][:1] + [f for f in fails if us[-1] < f[0] < meta['desc'][0]][:1] + \
+               [f for f in fails if f[0] >= meta['desc'][0]][:1]
+        ops += [['CUAtFailing'] + f for f in pick]
+        if not pick:
+            ops = []
     elif machine == 'DR':
         # a relocatable object: get_dwarf_info() again on the ELFFile between queries on the DWARFInfo already held
         us = meta['units']
@@ -1219,6 +1259,8 @@ def random_op(rng, meta):
                 choices += [['FollowRef', u['off'], off, rng.choice(refs)]] * 3
     if meta.get('refetch') and meta['has_dwarf']:
         choices += [['RefetchDwarf']] * 2
+    if meta['has_dwarf'] and meta.get('cu_fail'):
+        choices += [['CUAtFailing'] + rng.choice(meta['cu_fail']) for _ in range(2)]
     if meta['num_sections']:
         n = rng.randrange(meta['num_sections'])
         choices += [['ESectionTyped', n, meta['desc'][8][n][5]],
@@ -1301,13 +1343,16 @@ def gen(ctx):
         level = [[]]
         for _ in range(ctx.scale(3, 4)):
             level = [h + [s] for h in level for s in sym]
-            cases += [('pair', [nx + '+' + ny, [[w, op] for w, op in h]]) for h in level]
+            # histories on ONE of the two objects are what the single-file exploration covers: beyond length 1 only
+            # histories that touch both objects are run
+            cases += [('pair', [nx + '+' + ny, [[w, op] for w, op in h]]) for h in level
+                      if len(h) == 1 or len(set(w for w, _ in h)) == 2]
     for name in ('A', 'B', 'C'):
         meta = load_file(name)
         if meta.get('broken'):
             cases.append(('tab', [name, []]))
             continue
-        for machine in ('D', 'E', 'DF', 'DN', 'DT', 'DQ', 'DA'):
+        for machine in ('D', 'E', 'DF', 'DN', 'DT', 'DQ', 'DA', 'DU'):
             if machine == 'DT' and len(meta.get('tu_sigs', [])) < 2:
                 continue
             d = {'DF': depth + 2, 'DN': depth + 5, 'DT': depth + 2, 'DQ': depth + 2, 'DA': depth + 3}.get(machine, depth)
